@@ -3,7 +3,8 @@ import S3V.Model.HttpDe
 # Spec: how a client encodes input members (Smithy REST bindings: `httpHeader`, `httpQuery`)
 
 Independent of the decoder: a present single-valued member becomes exactly one header line / query pair under
-its wire name, an absent one contributes nothing, a list-valued header member contributes one line per element.
+its wire name, an absent one contributes nothing, a list-valued header member contributes one line per element (the comma-joined single
+line is the same list by RFC 9110 §5.3; `C02_list_header_comma_joined` states that the decoder reads both alike).
 -/
 namespace S3V.HttpBinding
 open S3V.HttpDe
@@ -36,7 +37,8 @@ def Conforms (b : EB V) (s : Slot V) : Prop :=
   (match b.bind.kind, s with
     | .reqHeader, .one _ => True
     | .optHeader, .opt _ => True
-    | .listHeader req, .many vs => req = true → vs ≠ []
+    | .listHeader req, .many vs =>
+      (req = true → vs ≠ []) ∧ ∀ v ∈ vs, lineItems (b.enc v) = [b.enc v]   -- an element's text is one item
     | .reqQuery, .one _ => True
     | .optQuery, .opt _ => True
     | _, _ => False) ∧
